@@ -152,9 +152,22 @@ def mon_c03(run, variance):
     info = graph_info(run)
     fin = {}
     tried = {}
+    wnames = {}
+    named = {}
+    placed_on = {}
     log = run["log"]
     for i, e in enumerate(log):
         k = e[0]
+        if k == "cluster":
+            wnames = e[2] if len(e) > 2 else {}
+        elif k == "decisions":
+            for d in e[2]:
+                if d[0] == "PLACE_TASK" and d[3] is not None:
+                    named[d[1]] = d[4]
+                elif d[0] in ("PLACE_TASK", "CANCEL_TASK"):
+                    named.pop(d[1], None)
+        elif k == "worker" and e[1] == "place" and e[5] == "ok":
+            placed_on[e[3]] = e[2]
         if k == "step":
             if e[1] != clock:
                 bad.append("clock jumped from %s to %s between steps" % (clock, e[1]))
@@ -208,6 +221,9 @@ def mon_c03(run, variance):
             elif op == "start":
                 drawn = e[6][0]
                 started[t] = (tm, drawn)
+                if named.get(t) is not None and named[t] in wnames and placed_on.get(t) not in (None, wnames[named[t]]):
+                    bad.append("task %s started on worker %s although the latest decision of its scheduler names worker %s"
+                               % (t, placed_on.get(t), wnames[named[t]]))
                 if t in sched:
                     ptime, rt = sched[t]
                     if ptime is not None and tm < ptime:
